@@ -336,6 +336,8 @@ inductive JVal where
   | bool (b : Bool)
   | null
   | other (repr : String)     -- floats, arrays, objects: compared by canonical text
+  | choice (values : List String)   -- `Choice(value.split('|'))`
+  | notP (arg : String)       -- `NotDefinedOrNot(argument)`, argument as canonical JSON text
   deriving Repr, DecidableEq, Inhabited
 
 abbrev Attrs := List (String × JVal)
